@@ -250,6 +250,11 @@ func (o *oracles) checkC13(rep reporter, r *reply) {
 					// re-allocation; the update does not bring it back
 					ctx = " already-unallocated-before-the-update"
 				}
+				if w.plan.Policy == "balloons" && ctx == "" {
+					if sn := o.balSnap(); sn != nil && !o.readmitEvidence(sn) {
+						ctx = " not-readmitted"
+					}
+				}
 				for _, z := range w.rt.active() {
 					if z.reqUnsure {
 						// F6/F7: another container's failed UpdateContainer left its
